@@ -34,5 +34,7 @@ def run(ctx):
     ctx.run.bounds['from_f64'] = 'every finite f64 bit pattern'
     kani_family(ctx, 'value.from_f64', 'From<f64> for JsonValue: an integral double in [0, 2^64) becomes Positive with that value, in (-2^63, 0) Negative, anything else stays the same Float',
                 [('k_from_f64_normalises', 'from-f64', 'From<f64> normalisation')], ['json_value.rs'], timeout_s=600)
+    from ..scen_print import json_framing
+    json_framing(ctx)          # one row per value, written when it is processed, from that value alone
     from ..conform import conformance
     conformance(ctx, ['roundtrip'])      # strict-JSON read-back and byte-for-byte fixpoint on seeded values (validates the references; never decides)
